@@ -221,9 +221,15 @@ def check_argv(ctx, obs, argv, cls, cells_extra=()):
                  sample={"argv": argv, "defines": exp[0], "include_paths": exp[1], "include_files": exp[2]})
         return True
 
+    def signature(state, value):
+        return ("exception", str(value).split(":")[0]) if state == "exc" else ("wrong-lists",)
+
+    sig0 = signature(st, val)
+
     def bad(a):
+        # still violating *in the same way* (a shrinker that drifts into another failure would mis-classify)
         (s2, v2), _ = obs.parse(a)
-        return not (s2 == "ok" and matches(v2, a))
+        return not (s2 == "ok" and matches(v2, a)) and signature(s2, v2) == sig0
 
     sh = shrink_argv(argv, bad)
     (s3, v3), _ = obs.parse(sh)
